@@ -88,7 +88,12 @@ class Stats:
             self.per_sig[k] = self.per_sig.get(k, 0) + n
         for k, v in o.notes.items():
             if isinstance(v, (int, float)) and isinstance(self.notes.get(k), (int, float)):
-                self.notes[k] += v
+                if k.endswith("_min"):
+                    self.notes[k] = min(self.notes[k], v)
+                elif k.endswith("_max"):
+                    self.notes[k] = max(self.notes[k], v)
+                else:
+                    self.notes[k] += v
             else:
                 self.notes[k] = v
         return self
